@@ -766,3 +766,77 @@ Proof.
   eapply Qle_trans; [apply Qabs_triangle|]. rewrite Qabs_Qmult.
   apply Qplus_le_compat; [exact Hu|]. apply Qmult_le_compat_r; [exact Hm|apply Qabs_nonneg].
 Qed.
+
+(* ====================== non-vacuity: real case lines ====================== *)
+(* produced by the harness (vharness run C16) on /repo from the cases in the comments *)
+Local Open Scope Z_scope.
+(* {"k":1,"s":{"kind":0,"min":3,"max":-1},"xs":[3,-1,1,5,-2],"grid":[-2,-1,0,1,2,3],"ys":[0,1,0.5,-0.5,1.25],"ygrid":[-1,0,0.5,1,2]} *)
+Definition ex_line_linear : list Z :=
+  [0x10; 0x1; 0x0; 0x4008000000000000; 0xbff0000000000000; 0x0;
+   0x0; 0x5; 0x4008000000000000; 0x4008000000000000; 0x8000000000000000; 0x8000000000000000;
+   0x8000000000000000; 0x4008000000000000; 0xbff0000000000000; 0xbff0000000000000; 0x3ff0000000000000; 0x3ff0000000000000;
+   0x3ff0000000000000; 0xbff0000000000000; 0x3ff0000000000000; 0x3ff0000000000000; 0x3fe0000000000000; 0x3fe0000000000000;
+   0x3fe0000000000000; 0x3ff0000000000000; 0x4014000000000000; 0x4014000000000000; 0xbfe0000000000000; 0x0;
+   0xbfe0000000000000; 0x4014000000000000; 0xc000000000000000; 0xc000000000000000; 0x3ff4000000000000; 0x3ff0000000000000;
+   0x3ff4000000000000; 0xc000000000000000; 0x6; 0xc000000000000000; 0x3ff4000000000000; 0xbff0000000000000;
+   0x3ff0000000000000; 0x0; 0x3fe8000000000000; 0x3ff0000000000000; 0x3fe0000000000000; 0x4000000000000000;
+   0x3fd0000000000000; 0x4008000000000000; 0x8000000000000000; 0x5; 0x0; 0x4008000000000000;
+   0x8000000000000000; 0x3ff0000000000000; 0xbff0000000000000; 0x3ff0000000000000; 0x3fe0000000000000; 0x3ff0000000000000;
+   0x3fe0000000000000; 0xbfe0000000000000; 0x4014000000000000; 0xbfe0000000000000; 0x3ff4000000000000; 0xc000000000000000;
+   0x3ff4000000000000; 0x5; 0xbff0000000000000; 0x401c000000000000; 0x0; 0x4008000000000000;
+   0x3fe0000000000000; 0x3ff0000000000000; 0x3ff0000000000000; 0xbff0000000000000; 0x4000000000000000; 0xc014000000000000].
+
+(* {"k":0,"min":1,"max":100,"base":10} *)
+Definition ex_line_newlog_ok : list Z :=
+  [0x10; 0x0; 0x3ff0000000000000; 0x4059000000000000; 0xa; 0x0;
+   0x3ff0000000000000; 0x4059000000000000; 0xa].
+
+(* {"k":0,"min":-1,"max":100,"base":10} *)
+Definition ex_line_newlog_err : list Z :=
+  [0x10; 0x0; 0xbff0000000000000; 0x4059000000000000; 0xa; 0x1;
+   0x0; 0x0; 0x0].
+
+(* {"k":0,"min":100,"max":1,"base":2} *)
+Definition ex_line_newlog_swapped : list Z :=
+  [0x10; 0x0; 0x4059000000000000; 0x3ff0000000000000; 0x2; 0x0;
+   0x3ff0000000000000; 0x4059000000000000; 0x2].
+
+(* {"k":2,"src":{"kind":0,"min":0,"max":4,"clamp":true},"dst":{"kind":0,"min":10,"max":20},"xs":[0,4,1,6,-2],"ys":[10,20,12.5,25]} *)
+Definition ex_line_qq_linlin : list Z :=
+  [0x10; 0x2; 0x0; 0x0; 0x4010000000000000; 0x1;
+   0x0; 0x0; 0x4024000000000000; 0x4034000000000000; 0x0; 0x0;
+   0x5; 0x0; 0x0; 0x4024000000000000; 0x4024000000000000; 0x0;
+   0x4010000000000000; 0x3ff0000000000000; 0x4034000000000000; 0x4034000000000000; 0x4010000000000000; 0x3ff0000000000000;
+   0x3fd0000000000000; 0x4029000000000000; 0x4029000000000000; 0x3ff0000000000000; 0x4018000000000000; 0x3ff0000000000000;
+   0x4034000000000000; 0x4034000000000000; 0x4010000000000000; 0xc000000000000000; 0x0; 0x4024000000000000;
+   0x4024000000000000; 0x0; 0x4; 0x4024000000000000; 0x0; 0x0;
+   0x0; 0x4024000000000000; 0x4034000000000000; 0x3ff0000000000000; 0x4010000000000000; 0x4010000000000000;
+   0x4034000000000000; 0x4029000000000000; 0x3fd0000000000000; 0x3ff0000000000000; 0x3ff0000000000000; 0x4029000000000000;
+   0x4039000000000000; 0x3ff8000000000000; 0x4018000000000000; 0x4018000000000000; 0x4034000000000000].
+
+(* {"k":1,"s":{"kind":1,"min":-1000,"max":-10,"hint":10},"r":10,"xs":[-1000,-10,-100,0,100,-37.5],"grid":[-1000,-100,-10],"ys":[0,1,0.5,0.25],"ygrid":[0,0.5,1]} *)
+Definition ex_line_log : list Z :=
+  [0x10; 0x1; 0x1; 0xc08f400000000000; 0xc024000000000000; 0xa;
+   0x4024000000000000; 0x6; 0xc08f400000000000; 0xc0c3880000000000; 0x0; 0x0;
+   0xbfe0000000000002; 0xc08f3ffffffffffe; 0xc024000000000000; 0xc059000000000000; 0x3ff0000000000000; 0x3ff0000000000000;
+   0x3fdffffffffffffe; 0xc024000000000001; 0xc059000000000000; 0xc08f400000000000; 0x3fdffffffffffffe; 0x3fdffffffffffffe;
+   0x0; 0xc059000000000003; 0x0; 0x0; 0x7ff8000000000001; 0x7ff8000000000001;
+   0x7ff8000000000001; 0xfff8000000000001; 0x4059000000000000; 0x408f400000000000; 0x7ff8000000000001; 0x7ff8000000000001;
+   0x7ff8000000000001; 0xfff8000000000001; 0xc042c00000000000; 0xc077700000000000; 0x3fe6d0c496e3a600; 0x3fe6d0c496e3a600;
+   0x3fcb43125b8e9800; 0xc042c00000000000; 0x3; 0xc08f400000000000; 0x0; 0xc059000000000000;
+   0x3fdffffffffffffe; 0xc024000000000000; 0x3ff0000000000000; 0x4; 0x0; 0xc08f3ffffffffffe;
+   0x0; 0x3ff0000000000000; 0xc024000000000001; 0x3ff0000000000000; 0x3fe0000000000000; 0xc059000000000003;
+   0x3fdffffffffffffe; 0x3fd0000000000000; 0xc073c3a4edfa9759; 0x3fd0000000000000; 0x3; 0x0;
+   0xc08f3ffffffffffe; 0x3fe0000000000000; 0xc059000000000003; 0x3ff0000000000000; 0xc024000000000001].
+
+(* {"k":2,"src":{"kind":0,"min":0,"max":4},"dst":{"kind":1,"min":1,"max":16,"hint":2},"xs":[0,4,1,2],"ys":[1,16,2,4]} *)
+Definition ex_line_qq_linlog : list Z :=
+  [0x10; 0x2; 0x0; 0x0; 0x4010000000000000; 0x0;
+   0x0; 0x1; 0x3ff0000000000000; 0x4030000000000000; 0x0; 0x2;
+   0x4; 0x0; 0x0; 0x3ff0000000000000; 0x3ff0000000000000; 0x0;
+   0x4010000000000000; 0x3ff0000000000000; 0x402fffffffffffff; 0x402fffffffffffff; 0x4010000000000000; 0x3ff0000000000000;
+   0x3fd0000000000000; 0x4000000000000000; 0x4000000000000000; 0x3ff0000000000000; 0x4000000000000000; 0x3fe0000000000000;
+   0x4010000000000000; 0x4010000000000000; 0x4000000000000000; 0x4; 0x3ff0000000000000; 0x0;
+   0x0; 0x0; 0x3ff0000000000000; 0x4030000000000000; 0x3ff0000000000000; 0x4010000000000000;
+   0x4010000000000000; 0x402fffffffffffff; 0x4000000000000000; 0x3fd0000000000000; 0x3ff0000000000000; 0x3ff0000000000000;
+   0x4000000000000000; 0x4010000000000000; 0x3fe0000000000000; 0x4000000000000000; 0x4000000000000000; 0x4010000000000000].
